@@ -285,6 +285,32 @@ def directed_histories(r):
     return hs
 
 
+def realloc_refusal_histories(r):
+    """reallocations that need new system memory while the OS refuses it, for every alignment class: the call must
+    return null, the old block must stay allocated and intact (the harness re-reads its bytes right away and again
+    later), and no later allocation — in particular one of the old block's size class — may overlap it"""
+    hs = []
+    for big in (300000, 3 << 20):
+        g = Gen(r)
+        ids = []
+        for al in (1, 8, 16, 32, 64, 256, 4096, 8192):
+            for sz in (40, 1000, 70000):
+                a = g.alloc(sz, al, r.choice("mc"), "Pl")
+                g.alloc(48, 8, "m", "Pl")                   # a neighbour, so that the block cannot grow in place
+                ids.append((a, sz, al))
+        for (a, sz, al) in ids:
+            g.lines.append("r %d %d | P%s F0" % (a, big + sz, r.choice("lg")))      # refused: null, block unchanged
+            g.alloc(sz, al, "m", "Pl")                       # same size class: must not land on the old block
+            g.alloc(max(1, sz - 8), 8, "c", "Pl")
+        for (a, sz, al) in ids[::2]:
+            g.realloc(a, sz * 2 + 100)                       # now served
+        for (a, sz, al) in ids[1::2]:
+            g.lines.append("r %d %d | Pl F0" % (a, big * 2)) # refused again
+        g.free_all("other")
+        hs.append(g)
+    return hs
+
+
 def release_check_history(r):
     """4095 frees of large chunks: release_checks counts down to the segment scan"""
     g = Gen(r)
@@ -701,6 +727,11 @@ def run(ctx):
     small = directed_histories(r) + gens[6:10]
     run_histories(ctx, "histories-debug-build", exe_dbg, drv, small, wf=True)
     run_histories(ctx, "histories-release-build", exe_rel, drv, small)
+    # 3b. reallocations refused by the OS, every alignment class (old block must survive a null return)
+    c2b = run_histories(ctx, "realloc-refused", exe, drv, realloc_refusal_histories(r), wf=True)
+    if c2b is not None:
+        coverage(ctx, drv, c2b)
+    run_histories(ctx, "realloc-refused-release-build", exe_rel, drv, realloc_refusal_histories(r))
     # 4. release_checks countdown
     c2 = run_histories(ctx, "release-check-countdown", exe, drv, [release_check_history(r)])
     if c2 is not None:
